@@ -3,8 +3,21 @@
 // Each family lives in its own file and registers itself in `families`.
 package main
 
-import "polyverif/internal/hx"
+import (
+	"os"
+	"runtime/pprof"
+
+	"polyverif/internal/hx"
+)
 
 var families = map[string]func() hx.Family{}
 
-func main() { hx.Main(families) }
+func main() {
+	if p := os.Getenv("HGOV_CPUPROFILE"); p != "" {
+		if f, err := os.Create(p); err == nil {
+			pprof.StartCPUProfile(f)
+			defer pprof.StopCPUProfile()
+		}
+	}
+	hx.Main(families)
+}
